@@ -168,6 +168,55 @@ def req_pull(ctx, p):
     return proto(ctx, 'PullRequest', subscription=StrTok(p.fresh('name_field')), return_immediately=S(ri, 'bool'), max_messages=S(mx, 'i32')), {'mx': mx, 'ri': ri}
 
 
+def req_publish(ctx, p):
+    from props.C09 import BytesTok, AttrMapTok
+    ds = [(p.fresh('data%d' % i), p.fresh('attrs%d' % i)) for i in range(2)]
+    n = p.fresh('n_msgs')
+    p.assume(z3.And(n >= 0, n <= 2))
+    msgs = [proto(ctx, 'PubsubMessage', data=BytesTok(d), attributes=AttrMapTok(a)) for d, a in ds]
+    return proto(ctx, 'PublishRequest', topic=StrTok(p.fresh('name_field')), messages=Seq(msgs, n)), {'ds': ds, 'n': n}
+
+
+class PublishHandler(Handler):
+    """Publish: the generic handler claims plus: the batch handed to the topic is the request's messages in order (data and attributes
+    intact), and the response carries the ids the topic answered with, in order"""
+
+    def __init__(self, ctx):
+        Handler.__init__(self, ctx, 'publisher', 'publish', req_publish, which='topic')
+        self.desc += '; the batch handed to the topic is the request\'s, in order and intact; the response lists the ids the topic assigned, in order'
+
+    def post(self, ip, p, res):
+        out = Handler.post(self, ip, p, res)
+        ctx = ip.ctx
+        r = res['ret']
+        if not (isinstance(r, Enum) and isinstance(r.discr, int) and r.discr == 0):
+            return out
+        ev = ip.src.enum_variants('TopicRequest')
+        enq = [e for e in res['log'] if e[0] == 'enqueue' and e[1] == 'topic']
+        out.append(Claim('exactly one request to the topic: PublishMessages', len(enq) == 1 and ev[enq[0][3].discr][0] == 'PublishMessages'))
+        if len(enq) != 1:
+            return out
+        batch = enq[0][3].payload[enq[0][3].discr][0]
+        ex = res['extra']
+        out.append(Claim('the whole batch, nothing added', batch.n == ex['n']))
+        for i, m in enumerate(batch.elems[:len(ex['ds'])]):
+            tm = m if isinstance(m, Agg) else read_loc(m.deref_loc(ip))
+            d, a = ex['ds'][i]
+            data = fld(ctx, tm, 'TopicMessage', 'data')
+            attrs = fld(ctx, tm, 'TopicMessage', 'attributes')
+            ad = attrs.discr if not isinstance(attrs.discr, int) else z3.IntVal(attrs.discr)
+            conj = [data.tok == d]
+            if 1 in attrs.payload:
+                conj.append(z3.Implies(ad == 1, attrs.payload[1][0].tok == a))
+            out.append(Claim('message %d of the batch is message %d of the request, data and attributes intact' % (i, i), z3.Implies(ex['n'] > i, z3.And(conj))))
+        resp = r.payload[0][0].fields[0]
+        order = ctx.src.struct_fields('PublishResponse', 'pubsub_proto_generated')
+        ids = resp.fields[order.index('message_ids')]
+        out.append(Claim('one id per id the topic answered with', ids.n == 1))
+        out.append(Cover('two messages published', ex['n'] == 2))
+        return out
+
+
 def bad_ack(extra):
     return z3.Or([z3.And(extra['n'] > i, z3.Not(_tok_parse_ok(t.tok))) for i, t in enumerate(extra['ids'])])
 
@@ -228,6 +277,7 @@ def obligations(ctx, cfg):
            Handler(ctx, 'subscriber', 'pull', req_pull),
            Handler(ctx, 'publisher', 'get_topic', req_sub_only('GetTopicRequest', 'topic'), which='topic'),
            Handler(ctx, 'publisher', 'delete_topic', req_sub_only('DeleteTopicRequest', 'topic'), which='topic'),
+           PublishHandler(ctx),
            ]
     from props.races import TopicNamespaceRace, SubscriptionNamespaceRace
     obs += [TopicNamespaceRace(ctx, ['create', 'create']), TopicNamespaceRace(ctx, ['create', 'delete']), TopicNamespaceRace(ctx, ['create', 'get']),
